@@ -275,7 +275,10 @@ class GaussianBackend(BaseGaussian):
         if modes is None:
             modes = list(range(len(self.get_modes())))
 
-        listmodes = list(concatenate((2 * array(modes), 2 * array(modes) + 1)))
+        # ``modes`` counts the active modes; the rows of ``m`` and ``r`` still contain the
+        # deleted ones, so look up where each requested mode actually sits
+        rows = array(self.get_modes())[modes]
+        listmodes = list(concatenate((2 * rows, 2 * rows + 1)))
         covmat = empty((2 * len(modes), 2 * len(modes)))
         means = r[listmodes]
 
